@@ -97,14 +97,16 @@ type lcSess struct {
 }
 
 type lcWorld struct {
-	w       *World
-	sess    map[int]*lcSess
-	created map[string]bool
-	fail03  string
-	fail04  string
-	stats   map[string]bool
-	g       *Gates
-	allSids []string
+	w           *World
+	sess        map[int]*lcSess
+	created     map[string]bool
+	fail03      string
+	fail04      string
+	stats       map[string]bool
+	g           *Gates
+	allSids     []string
+	flushPark   chan struct{}
+	flushParked bool
 }
 
 func (lw *lcWorld) f03(format string, a ...any) {
@@ -168,7 +170,7 @@ func genLC(rt *rapid.T, gates bool, known map[string]bool, col *Collector) []lcS
 			st.Car = rapid.SampledFrom(carriers).Draw(rt, l+".car")
 			if k == "gateHandshake" {
 				st.Car = rapid.SampledFrom([]string{"websocket", "webtransport"}).Draw(rt, l+".gcar")
-				st.Cause = rapid.SampledFrom([]string{"drop", "appCloseNow", "none"}).Draw(rt, l+".gcause")
+				st.Cause = rapid.SampledFrom([]string{"drop", "dropInOpenFlush", "dropInOpenFlush", "none"}).Draw(rt, l+".gcause")
 			}
 			st.Rev = 4
 			if st.Car != "webtransport" && rapid.IntRange(0, 3).Draw(rt, l+".rev3") == 0 {
@@ -545,7 +547,12 @@ func (lw *lcWorld) handshake(st lcStep) {
 	before := len(w.Order)
 	var gp GatePoint
 	gated := st.Kind == "gateHandshake"
-	if gated {
+	inFlush := gated && st.Cause == "dropInOpenFlush"
+	var flushCh chan struct{}
+	if inFlush {
+		flushCh = make(chan struct{})
+		lw.flushPark, lw.flushParked = flushCh, false
+	} else if gated {
 		gp = lw.arm("server.Handshake.constructed")
 	}
 	switch st.Car {
@@ -578,7 +585,24 @@ func (lw *lcWorld) handshake(st lcStep) {
 			s.sid = tc.Sid
 		}
 	}
-	if gated {
+	if inFlush {
+		if lw.flushParked {
+			// the session is being opened: its open packet is being handed to the transport
+			lw.stats["cause-during-handshake"] = true
+			lw.stats["drop-while-open-packet-is-flushed"] = true
+			if s.wc != nil {
+				s.wc.Drop()
+			} else {
+				s.tc.Drop()
+			}
+			s.addCause("drop")
+			Settle()
+		}
+		lw.flushPark = nil
+		close(flushCh)
+		Settle()
+		s.pump()
+	} else if gated {
 		if lw.parked(gp) {
 			lw.stats["cause-during-handshake"] = true
 			// the session object exists and is open, the server has not registered it yet
@@ -654,9 +678,21 @@ func runLC(steps []lcStep) (*lcWorld, bubbleResult) {
 			}
 		}
 		w.OnConn = func(sr *SessRec) {}
+		// an application listener of the server's flush event that can be made to block: holds the
+		// handshake inside the hand-off of the open packet (no source hook needed for this window)
+		w.Srv.On("flush", func(...any) {
+			if ch := lw.flushPark; ch != nil {
+				lw.flushPark = nil
+				lw.flushParked = true
+				<-ch
+			}
+		})
 		for i, st := range steps {
 			what := fmt.Sprintf("step %d %v", i, st)
 			s := lw.sess[st.Sess]
+			if s != nil && s.sr == nil {
+				s = nil // never announced (died during its handshake)
+			}
 			switch st.Kind {
 			case "hs", "gateHandshake":
 				lw.handshake(st)
